@@ -24,7 +24,8 @@
 (* reader reads equals ReadAt(hist, k, its horizon); (C06): the latest     *)
 (* reader reads ReadAt(hist, k, visible) under every physical arrangement. *)
 (***************************************************************************)
-EXTENDS Retention, TLC, SequencesExt
+EXTENDS Retention, TLC
+LOCAL SeqExt == INSTANCE SequencesExt
 
 CONSTANTS
     Keys,          \* user keys
@@ -125,7 +126,7 @@ Flush ==
    last level.  Everything of the target level takes part (tiny key space: ranges overlap). *)
 KeyList(S, k) ==
     \* newest first (SetToSortSeq: enumerating [1..n -> vs] is n^n - 8 versions of one key already exceed TLC's set limit)
-    SetToSortSeq(Strip(OfKey(S, k)), LAMBDA a, b : a.seq > b.seq)
+    SeqExt!SetToSortSeq(Strip(OfKey(S, k)), LAMBDA a, b : a.seq > b.seq)
 
 Compacted(S, bottom) ==
     UNION { { [k |-> k, seq |-> v.seq, kind |-> v.kind, win |-> v.win] :
